@@ -297,6 +297,24 @@ pub trait RollingDrivers<T>: Vec1View<T> {
             (window == 0 && out.is_some()) ==> r.is_none() && (out matches Some(o) ==> final(o).written() =~= o.written()),
             (window == 0 && out.is_none() && self.view().len() == 0) ==> r.is_some() && r.unwrap().oview().len() == 0;
 
+    // tea-core view.rs rolling2_apply: the callback sees pairs; a second series shorter than the first is a clean panic
+    fn rolling2_apply<O: Vec1<OT>, OT, V2: Vec1View<T2>, T2, F: RollingFn<(T, T2), OT>>(&self, other: &V2, window: usize, f: &mut F, out: Option<&mut O::Buf>) -> (r: Option<O>)
+        requires
+            old(f).hist().len() == 0,
+            old(f).inv(),
+            other.view().len() >= self.view().len() ==> all_elem_ok::<(T, T2), OT, F>(zipv(self.view(), other.view())),
+            other.view().len() < self.view().len() ==> panic_allowed(),
+            out matches Some(o) ==> buf_fresh(o, self.view().len()),
+            (window == 0 && out.is_none() && self.view().len() > 0) ==> panic_allowed(),
+        ensures
+            final(f).inv(),
+            final(f).cfg() == old(f).cfg(),
+            window >= 1 ==> trace_ok(final(f).hist(), zipv(self.view(), other.view()), window),
+            window >= 1 ==> delivered(r, match out { Some(o) => Some(final(o).written()), None => None }, outs(final(f).hist())),
+            window == 0 ==> final(f).hist() =~= old(f).hist(),
+            (window == 0 && out.is_some()) ==> r.is_none() && (out matches Some(o) ==> final(o).written() =~= o.written()),
+            (window == 0 && out.is_none() && self.view().len() == 0) ==> r.is_some() && r.unwrap().oview().len() == 0;
+
     // tea-core view.rs rolling_apply_idx
     fn rolling_apply_idx<O: Vec1<OT>, OT, F: RollingIdxFn<T, OT>>(&self, window: usize, f: &mut F, out: Option<&mut O::Buf>) -> (r: Option<O>)
         requires
